@@ -101,6 +101,10 @@ func (propC17) Draw(rt *rapid.T, w *WorldDesc, mode string) *Plan {
 			op.ReqJSON = jsonOf(req)
 			if rapid.IntRange(0, 4).Draw(rt, fmt.Sprintf("op%d.fail", i)) == 0 {
 				op.App = AppBehaviour{Kind: "err-plain", Text: fmt.Sprintf("failure of op %d", i)}
+				if rapid.Bool().Draw(rt, fmt.Sprintf("op%d.sentinel", i)) {
+					// a sentinel *sebufhttp.Error (one value for every failing call when instances are shared)
+					op.App = AppBehaviour{Kind: "err-sebuf", Text: rapid.SampledFrom([]string{"not allowed", "quota exceeded"}).Draw(rt, fmt.Sprintf("op%d.sentinelText", i))}
+				}
 			} else {
 				resp := NewFilled(rt, md.NewResp, fmt.Sprintf("op%d.resp", i), nil)
 				op.RespBin = mustMarshal(resp)
@@ -211,6 +215,12 @@ func observe(c *CallState) observation {
 		o.Outcome = normErr(c.Err)
 	default:
 		o.Outcome = "ok:" + msgHash(c.Resp) + ":" + jsonOf(c.Resp)
+	}
+	// what the server put on the wire besides the body: status and media type of the response
+	if len(c.Conns) > 0 && len(c.Conns[0].s2c.sent) > 0 {
+		if st, rh, _, err := parseResponse(c.Conns[0].s2c.sent, "POST"); err == nil {
+			o.Outcome += fmt.Sprintf(" [status=%d content-type=%s]", st, ctFamily(rh.Get("Content-Type")))
+		}
 	}
 	for _, w := range c.Wire {
 		var hs []string
